@@ -288,6 +288,9 @@ def aggregator (pfx : String) (a : Agg) (main : Sel) : PlanM Sel := do
 def check : Script → PlanM Unit
   | [] => pure ()
   | (s, _) :: tail => do
+    match s.agg with
+    | some a => if a.fn ≠ .count ∧ a.attr = "" then throw "the aggregator needs the attribute to aggregate"
+    | none => pure ()
     if s.attrs.isNone then
       if s.agg.isSome then throw "requests like `{} | ....` are not supported"
       if ¬ tail.isEmpty then throw "requests like `{} || .....` are not supported"
